@@ -481,7 +481,9 @@ def gen_project(rng, mode="plain", syntaxes=None, allow_mixed=True, max_files=4,
         cands = [(f, ln) for f in files if not f.get("overlap") for ln in f["lines"] if any(not isinstance(sg, str) for sg in ln["segs"])]
         if cands:
             f, ln = rng.choice(cands)
-            ln["segs"] = ["x = [" + "0xfe, " * rng.choice([22000, 30000, 45000]) + "]; "] + ln["segs"]
+            # (a bare `{version}` pattern has no marker: its file must not hold digits that are not a version)
+            item = "oxfe, " if f.get("bare") else "0xfe, "
+            ln["segs"] = ["x = [" + item * rng.choice([22000, 30000, 45000]) + "]; "] + ln["segs"]
             f["huge_line"] = True
     has_twin_pair = False
     if twin_pair and pep_ok and not legacy and pep_friendly(vpattern) and rng.random() < 0.12:
